@@ -246,12 +246,15 @@ def check_decimal(repo, rep):
         fn = repo.func(UTILS, name)
         for out in W.run_function(repo, UTILS, name, lambda it: ([A("a"), A("b")], {})):
             want = A("a") + A("b") if sign == 1 else A("a") - A("b")
-            if out.kind != "return" or not (isinstance(out.value, R) and out.value.same(want)):
+            # the conversions to Decimal made on this path (helpers included): each of the exact decimal text str(x) of an operand
+            convs = [e for e in out.events if e[0] == "decimal"]
+            lossy = [e[1] for e in convs if e[1] != "str"]
+            ops_ = [e[2] for e in convs if e[1] == "str"]
+            both = any(isinstance(x, R) and x.same(A("a")) for x in ops_) and any(isinstance(x, R) and x.same(A("b")) for x in ops_)
+            if lossy or not both:
+                rep.violation(rid, f"{name}|decimal", f"utils.{name} does not compute on Decimal(str(.)) of both operands: conversions {[e[1] for e in convs]} on the path {out.conds}")
+            elif out.kind != "return" or not (isinstance(out.value, R) and out.value.same(want)):
                 rep.violation(rid, f"{name}|value", f"utils.{name}(a, b) evaluates to {out.value!r}")
-        decs = [c for c in ast.walk(fn) if isinstance(c, ast.Call) and norm(c.func).endswith("Decimal")]
-        strs = [c for c in decs if c.args and isinstance(c.args[0], ast.Call) and norm(c.args[0].func) == "str"]
-        if len(decs) < 2 or len(strs) != len(decs):
-            rep.violation(rid, f"{name}|decimal", f"utils.{name} does not compute on Decimal(str(.)) of both operands")
         rep.instance(rid, name)
     rep.floor(rid, 2)
 
